@@ -19,6 +19,10 @@ Inductive expr :=
 | EOp (o : op) (args : list expr)
 | EBig (k : bigop) (i : string) (body lo hi : expr).
 
+(* `value == 0` on a field of a sequence: true of the literal zero (native or parsed), false of anything still symbolic *)
+Definition is_zero_lit (e : expr) : bool :=
+  match e with ENum q => Qeq_bool q 0 | _ => false end.
+
 (* induction principle that reaches into the argument lists *)
 Section Ind.
   Variable P : expr -> Prop.
